@@ -14,8 +14,9 @@
      asc     [se, ss, res, rows, own_res, own]: to_ascii(se, ss) and the maze's own as_ascii(se, ss)
    Layer P (the statement): plot_raises, image_size, cell_blocks, cell_values, connected_strip_not_passage,
      unconnected_strip_not_wall, image_placement, path_polylines, endpoint_markers, marker_off_listed_cells,
-     ascii_export.
+     ascii_export (to_ascii with its default flags).
    Layer M: M:image_model, M:passage_value_of_unit_cell (Plot.tla), M:marked_coords, M:marker_count,
+     M:ascii_export_flags (to_ascii(se, ss) = as_ascii(se, ss) for the non-default flag pairs),
      M:input_malformed (driver produced a case outside the scope).
    X:rle_* = the two encodings of one image disagree / malformed encoding: harness machinery, not a verdict. *)
 EXTENDS Plot, Json, IOUtils, SequencesExt
@@ -106,14 +107,18 @@ PathPart(r) ==
 AsciiPart(r) ==
   LET m == r.maze  ul == r.ul
       tdef == ~r.tpset /\ m.kind = KTargeted
-      same == \A i \in 1..Len(r.asc) : LET a == r.asc[i] IN a.res = a.own_res /\ (a.res = "ok" => a.rows = a.own)
+      agrees(a) == a.res = a.own_res /\ (a.res = "ok" => a.rows = a.own)
+      \* the export proper (default flags) is the statement; how other flag pairs are forwarded is left open
+      same == \A i \in 1..Len(r.asc) : (r.asc[i].se /\ r.asc[i].ss) => agrees(r.asc[i])
+      sameFlags == \A i \in 1..Len(r.asc) : agrees(r.asc[i])
       segLines == SelectSeq(r.lines, LAMBDA a : a.ls # "None" /\ Len(a.pts) >= 2)
       cands == IF Cell(m.start) = Cell(m.end) THEN {<<Cell(m.start)>>}
                ELSE {q \in {[j \in 1..Len(segLines[i].pts) |-> CellOfPt(segLines[i].pts[j], ul)] : i \in 1..Len(segLines)} :
                        IsShortestPath(m.R, m.C, m.conn, q, Cell(m.start), Cell(m.end))}
       shows(a, q) == AsciiClauses(PxImage([kind |-> KSolved, R |-> m.R, C |-> m.C, conn |-> m.conn, start |-> Cell(m.start), end |-> Cell(m.end), sol |-> q], TRUE, TRUE), a.rows) = {}
       solved == \A i \in 1..Len(r.asc) : LET a == r.asc[i] IN (a.se /\ a.ss /\ a.res = "ok") => \E q \in cands : shows(a, q)
-  IN IF same /\ (tdef => solved) THEN {} ELSE {"ascii_export"}
+  IN (IF same /\ (tdef => solved) THEN {} ELSE {"ascii_export"})
+     \cup (IF sameFlags THEN {} ELSE {"M:ascii_export_flags"})
 
 Clauses(r) ==
   IF ~InScope(r) THEN {"M:input_malformed"}
